@@ -51,6 +51,7 @@ type realSpec struct {
 	ResolveAt   time.Duration `json:"resolve_at"`         // the first alert of group A resolves
 	Length      time.Duration `json:"length"`
 	BigGroup    bool          `json:"big_group"`
+	JoinAt      time.Duration `json:"join_at,omitempty"` // the LAST instance of Names starts only then, with an empty data directory
 	Seed        int64         `json:"seed"`
 }
 
@@ -101,6 +102,8 @@ type realRun struct {
 
 	mu   sync.Mutex
 	seen map[string][]seenEntry // instance|groupkey -> entries in the order first seen
+
+	joinerReadyAt time.Time // late joiner: first instant it reported "ready" with full membership
 	ops  []string
 }
 
@@ -166,7 +169,20 @@ func runReal(sp *realSpec, dir string) (*realRun, string) {
 			}
 		}
 	}()
-	for i := 0; i < sp.Size; i++ {
+	n0 := sp.Size
+	if sp.JoinAt > 0 {
+		n0 = sp.Size - 1
+	}
+	startInst := func(i int) (*sim.Instance, error) {
+		var peers []string
+		for j := 0; j < i; j++ {
+			peers = append(peers, addrs[j])
+		}
+		return sim.Start(sim.Options{Name: sp.Names[i], ConfigYAML: sp.yaml(), Dir: fmt.Sprintf("%s/i%d", dir, i), Log: rr.log, Script: script,
+			RealCluster: &sim.RealCluster{BindAddr: addrs[i], PeerName: sp.Names[i], Peers: peers, PeerTimeout: sp.PeerTimeout,
+				GossipInterval: 50 * time.Millisecond, PushPull: time.Hour, ProbeTimeout: 5 * time.Second, ProbeInterval: 10 * time.Second, SettleTimeout: 30 * time.Second}})
+	}
+	for i := 0; i < n0; i++ {
 		var peers []string
 		for j := 0; j < i; j++ {
 			peers = append(peers, addrs[j])
@@ -180,7 +196,7 @@ func runReal(sp *realSpec, dir string) (*realRun, string) {
 		rr.insts = append(rr.insts, in)
 	}
 	// wait until every instance reports the full membership and "ready"
-	want := append([]string{}, sp.Names...)
+	want := append([]string{}, sp.Names[:n0]...)
 	sort.Strings(want)
 	deadline := time.Now().Add(40 * time.Second)
 	for {
@@ -214,7 +230,10 @@ func runReal(sp *realSpec, dir string) (*realRun, string) {
 				return
 			default:
 			}
-			for _, in := range rr.insts {
+			rr.mu.Lock()
+			insts := append([]*sim.Instance{}, rr.insts...)
+			rr.mu.Unlock()
+			for _, in := range insts {
 				for _, gk := range gks {
 					es, err := in.VI.Nflog.Query(nflog.QGroupKey(gk), nflog.QReceiver(rcRecv))
 					if err != nil || len(es) == 0 {
@@ -272,6 +291,31 @@ func runReal(sp *realSpec, dir string) (*realRun, string) {
 			}
 			left = true
 		}
+		if sp.JoinAt > 0 && len(rr.insts) < sp.Size && now.Sub(rr.start) >= sp.JoinAt {
+			in, err := startInst(sp.Size - 1)
+			if err != nil {
+				close(stopMon)
+				monWG.Wait()
+				return nil, "start of the late joiner: " + err.Error()
+			}
+			rr.note("instance %s joins with an empty data directory", in.Name)
+			rr.mu.Lock()
+			rr.insts = append(rr.insts, in)
+			rr.mu.Unlock()
+			all := append([]string{}, sp.Names...)
+			sort.Strings(all)
+			go func() { // watch for the joiner becoming ready
+				for k := 0; k < 2000; k++ {
+					if st, names := status(in); st == "ready" && strings.Join(names, ",") == strings.Join(all, ",") {
+						rr.mu.Lock()
+						rr.joinerReadyAt = time.Now()
+						rr.mu.Unlock()
+						return
+					}
+					time.Sleep(10 * time.Millisecond)
+				}
+			}()
+		}
 		var batch []sim.PostableAlert
 		el := now.Sub(rr.start)
 		for _, a := range alerts {
@@ -306,6 +350,8 @@ func runReal(sp *realSpec, dir string) (*realRun, string) {
 	monWG.Wait()
 	// membership must still be complete at the end (no false failure detection under load)
 	if sp.LeaveAt == 0 {
+		want = append([]string{}, sp.Names...)
+		sort.Strings(want)
 		for _, in := range rr.insts {
 			if _, names := status(in); strings.Join(names, ",") != strings.Join(want, ",") {
 				return nil, "membership changed during the run (failure detector under load)"
@@ -352,6 +398,9 @@ func judgeReal(rr *realRun, sub *vf.Sub) []realVerdict {
 		p := sp.pos(indexOf(sp.Names, a.Instance))
 		if sp.LeaveAt > 0 && a.Start.After(leave.Add(-100*time.Millisecond)) {
 			continue // membership (and with it the position) legitimately changes around the leave
+		}
+		if sp.JoinAt > 0 {
+			continue // positions change when the joiner arrives (judged in the other kinds)
 		}
 		sub.Count("waits_judged", 1)
 		if w := a.Start.Sub(a.Tick); w < time.Duration(p)*sp.PeerTimeout {
@@ -448,6 +497,51 @@ func judgeReal(rr *realRun, sub *vf.Sub) []realVerdict {
 		}
 	}
 
+	// (f) a joining instance obtains the notification log through the full-state exchange of the join:
+	// once it reports "ready" with full membership (settling takes seconds), the monitor must see in its
+	// log an entry for every group that had been notified before it started
+	if sp.JoinAt > 0 {
+		joiner := sp.Names[sp.Size-1]
+		rr.mu.Lock()
+		readyAt := rr.joinerReadyAt
+		rr.mu.Unlock()
+		if readyAt.IsZero() {
+			out = append(out, realVerdict{"joiner-never-ready", with(nil)}) // turned into inconclusive by the caller
+		} else {
+			for _, gk := range []string{groupKeyOf("A"), groupKeyOf("B")} {
+				notifiedBefore := false
+				for _, y := range atts {
+					if y.Outcome == "ok" && y.GroupKey == gk && y.End.Before(rr.start.Add(sp.JoinAt)) {
+						notifiedBefore = true
+					}
+				}
+				if !notifiedBefore {
+					continue
+				}
+				rr.mu.Lock()
+				seen := rr.seen[joiner+"|"+gk]
+				rr.mu.Unlock()
+				sub.Count("joiner_groups_judged", 1)
+				// an entry written BEFORE the join (by someone else, necessarily): entries the joiner writes itself
+				// or receives later by gossip say nothing about the exchange at join
+				var first *seenEntry
+				for k := range seen {
+					if seen[k].ts.Before(rr.start.Add(sp.JoinAt)) {
+						first = &seen[k]
+						break
+					}
+				}
+				if first == nil || first.seenAt.After(readyAt.Add(5*time.Second)) {
+					when := "never"
+					if first != nil {
+						when = "+" + first.seenAt.Sub(readyAt).Round(time.Millisecond).String() + " after it was ready"
+					}
+					out = append(out, realVerdict{"joining-instance-did-not-obtain-the-notification-log-at-join", with(map[string]any{"joiner": joiner, "group": gk, "entry_written_before_the_join_seen_in_its_log": when, "ready_at": rel(readyAt)})})
+				}
+			}
+		}
+	}
+
 	// (b) at least once: at the end of the run (a full flush cycle plus every cluster wait plus 4 s
 	// after the last change) the latest successful notification of each group lists exactly the alerts
 	// then firing, and the resolved alert was reported resolved.
@@ -521,12 +615,17 @@ func subsetOf(a, b []string) bool {
 
 func genRealSpec(r *rand.Rand, seed int64, i int) *realSpec {
 	sp := &realSpec{Seed: seed}
-	kinds := []string{"healthy", "healthy", "first-position-cannot-deliver", "leader-leaves", "only-last-position-can-deliver"}
+	kinds := []string{"healthy", "late-joiner-without-data", "first-position-cannot-deliver", "leader-leaves", "only-last-position-can-deliver", "healthy"}
 	sp.Kind = kinds[i%len(kinds)]
 	sp.Size = 2 + r.Intn(2)
 	sp.PeerTimeout = time.Second
 	sp.GroupWait = 300 * time.Millisecond
 	sp.Length = 12 * time.Second
+	if sp.Kind == "late-joiner-without-data" {
+		// two initial members: a lone member keeps its broadcasts queued (nobody to gossip to) and would hand
+		// them to the joiner by ordinary gossip; with two, the queues have drained long before the join
+		sp.Size = 3
+	}
 	if sp.Kind == "only-last-position-can-deliver" {
 		// the cluster wait of the last position (12 s) exceeds the base pipeline time-out (10 s): the
 		// notification only goes out when the time-out is extended by the wait
@@ -558,6 +657,8 @@ func genRealSpec(r *rand.Rand, seed int64, i int) *realSpec {
 		for k := range sp.Names {
 			sp.Failing[k] = sp.pos(k) < sp.Size-1
 		}
+	case "late-joiner-without-data":
+		sp.JoinAt = sp.AddAt + 1500*time.Millisecond
 	case "leader-leaves":
 		sp.LeaveAt = sp.GroupIntvl + time.Duration(r.Intn(2000))*time.Millisecond
 	}
@@ -566,7 +667,7 @@ func genRealSpec(r *rand.Rand, seed int64, i int) *realSpec {
 
 func TestRealMesh(t *testing.T) {
 	run := vf.Cur()
-	sub := run.Sub("real-mesh-loopback", "2-3 unmodified instances with the REAL gossip mesh (memberlist on loopback, real Peer.Position / clusterWait / pipeline time-out extension / settle), real time; every instance is (re-)sent the same alerts once a second; kinds: healthy, position 0 cannot deliver (recoverable or unrecoverable errors), position 0 leaves gracefully mid-run, only the last position can deliver with a cluster wait (12 s) above the base pipeline time-out; a monitor polls every instance's notification log every 3 ms; judged: (a) no delivery starts earlier than position x peer_timeout after its flush tick while membership is complete, (b) at the end some instance has delivered the current state of every group and the resolution, (c) no instance repeats a state whose covering entry the monitor had seen in that instance's log before the flush tick, (e) in healthy runs (half of them with a 120-alert group whose log entry exceeds the 700-byte direct-send threshold) the entry of every successful notification is seen in every other instance's log within 5 s; a miss of (b) or (e) must reproduce on 3 runs; non-trivial = >=2 successful notifications and every instance was ready with full membership; distinct by (seed)", 4)
+	sub := run.Sub("real-mesh-loopback", "2-3 unmodified instances with the REAL gossip mesh (memberlist on loopback, real Peer.Position / clusterWait / pipeline time-out extension / settle), real time; every instance is (re-)sent the same alerts once a second; kinds: healthy, a late joiner with an empty data directory (it must hold the log entries of the groups notified before within 5 s of reporting ready - rule (f)), position 0 cannot deliver (recoverable or unrecoverable errors), position 0 leaves gracefully mid-run, only the last position can deliver with a cluster wait (12 s) above the base pipeline time-out; a monitor polls every instance's notification log every 3 ms; judged: (a) no delivery starts earlier than position x peer_timeout after its flush tick while membership is complete, (b) at the end some instance has delivered the current state of every group and the resolution, (c) no instance repeats a state whose covering entry the monitor had seen in that instance's log before the flush tick, (e) in healthy runs (half of them with a 120-alert group whose log entry exceeds the 700-byte direct-send threshold) the entry of every successful notification is seen in every other instance's log within 5 s; a miss of (b) or (e) must reproduce on 3 runs; non-trivial = >=2 successful notifications and every instance was ready with full membership; distinct by (seed)", 4)
 	n := run.N(10, 200)
 	vf.Parallel(t, n, 10, func(t *testing.T, i int) {
 		r := sub.Rand(i)
@@ -590,7 +691,7 @@ func TestRealMesh(t *testing.T) {
 			verdicts = judgeReal(rr, sub)
 			timing := false
 			for _, v := range verdicts {
-				if v.sig == "no-instance-delivered-the-current-group-state" || v.sig == "no-instance-reported-the-resolved-alert" || v.sig == "log-entry-of-a-notification-not-received-by-a-peer-in-a-healthy-mesh" {
+				if v.sig == "joining-instance-did-not-obtain-the-notification-log-at-join" || v.sig == "no-instance-delivered-the-current-group-state" || v.sig == "no-instance-reported-the-resolved-alert" || v.sig == "log-entry-of-a-notification-not-received-by-a-peer-in-a-healthy-mesh" {
 					timing = true
 				}
 			}
@@ -600,6 +701,10 @@ func TestRealMesh(t *testing.T) {
 			sub.Count("reruns_after_a_missed_bound", 1)
 		}
 		for _, v := range verdicts {
+			if v.sig == "joiner-never-ready" {
+				sub.Inconclusive(fmt.Sprintf("case %d: the late joiner never reported ready with full membership", i))
+				continue
+			}
 			sub.Violation(v.sig, v.detail)
 		}
 		ok := 0
